@@ -35,80 +35,97 @@ const BOOT = new vm.Script(`(function(h){
   Date.now = function() { return h.now(); };
 })`, { filename: 'verif-boot.js' });
 
+// A Machine is a vm context with the harness hooks installed once; the hooks
+// delegate to the state of the current run. By default every execution gets a
+// fresh Machine (fresh context); opts.machine lets a caller reuse one context
+// for many executions of the same script (the script is one closure that
+// rebuilds its whole runtime state on every run; only properties it sets on
+// the global object survive, and those are deleted between runs).
+class Machine {
+  constructor() {
+    const m = this;
+    this.run = null;
+    this.sandbox = {
+      console: {
+        log: (...a) => { m.run.out.push(['o', a.join(' ')]); },
+        error: (...a) => { m.run.out.push(['e', a.join(' ')]); },
+        warn: (...a) => { m.run.out.push(['e', a.join(' ')]); },
+      },
+      process: { exit: (code) => { throw new ExitSignal(code === undefined ? 0 : code); } },
+      setTimeout: (fn, delay, ...args) => {
+        const r = m.run;
+        const id = ++r.timerSeq;
+        r.timers.push({ id, fn, args, delay: delay || 0 });
+        if (fn && fn.name === '$runScheduled') r.passStartPending = true;
+        return id;
+      },
+      clearTimeout: (id) => {
+        const r = m.run;
+        const i = r.timers.findIndex(t => t.id === id);
+        if (i >= 0) r.timers.splice(i, 1);
+      },
+      TextDecoder, TextEncoder,
+    };
+    this.baseKeys = null;
+    this.ctx = vm.createContext(this.sandbox);
+    const h = {
+      random: () => { m.run.randPending = true; return 1 / 1024; },
+      floor: (x) => {
+        const r = m.run;
+        if (!r.randPending) return undefined;
+        r.randPending = false;
+        const k = x * 1024;
+        if (!(Number.isInteger(k) && k >= 1 && k <= 64)) return undefined;
+        if (k === 1) return 0;
+        return r.choose('rand', k);
+      },
+      now: () => {
+        const r = m.run;
+        if (r.passStartPending) { r.passStartPending = false; r.inPass = true; r.passStart = r.now; return r.now; }
+        if (!r.inPass) return r.now;
+        if (r.points.length >= r.maxPoints) return r.passStart;
+        // Breaking the pass only matters when some other timer is pending: with only this pass's
+        // own pre-queued continuation timer in the queue the break resumes the same queue at once.
+        if (r.timers.length <= 1 && !r.allSlicePoints) return r.passStart;
+        const c = r.choose('slice', 2);
+        if (c === 1) { r.inPass = false; r.now += 5; return r.now; }
+        return r.passStart;
+      },
+    };
+    BOOT.runInContext(this.ctx)(h);
+    this.baseKeys = new Set(Object.keys(this.sandbox));
+  }
+  reset() {
+    for (const k of Object.keys(this.sandbox)) if (!this.baseKeys.has(k)) delete this.sandbox[k];
+  }
+}
+
 // runOnce executes the script under the given choice list.
-// opts: {globals, maxTimers, maxPoints, setup(ctxGlobal, api)}
+// opts: {globals, maxTimers, maxPoints, machine}
 // Returns {out:[[stream,text]...], end, points:[{k,n,c}], diverged}
 function runOnce(script, choices, opts) {
   opts = opts || {};
-  const out = [];
-  const points = [];
-  let ci = 0;
-  let diverged = null;
-  const choose = (kind, n) => {
+  const m = opts.machine || new Machine();
+  if (opts.machine) m.reset();
+  const run = {
+    out: [], points: [], ci: 0, diverged: null, timerSeq: 0, timers: [], passStartPending: false,
+    now: 1000, passStart: 0, inPass: false, randPending: false, maxPoints: opts.maxPoints || 10000,
+    allSlicePoints: !!opts.allSlicePoints,
+  };
+  run.choose = (kind, n) => {
     let c = 0;
-    if (ci < choices.length) {
-      c = choices[ci];
-      if (c >= n || c < 0) { diverged = `choice ${ci}=${c} out of range for ${kind}/${n}`; c = 0; }
+    if (run.ci < choices.length) {
+      c = choices[run.ci];
+      if (c >= n || c < 0) { run.diverged = `choice ${run.ci}=${c} out of range for ${kind}/${n}`; c = 0; }
     }
-    ci++;
-    points.push({ k: kind, n, c });
+    run.ci++;
+    run.points.push({ k: kind, n, c });
     return c;
   };
-
-  // timers
-  let timerSeq = 0;
-  const timers = []; // {id, fn, args, delay}
-  let passStartPending = false;
-  let now = 1000;
-  let passStart = 0;
-  let inPass = false;
-  let randPending = false;
-  const maxPoints = opts.maxPoints || 10000;
-
-  const sandbox = {
-    console: {
-      log: (...a) => { out.push(['o', a.join(' ')]); },
-      error: (...a) => { out.push(['e', a.join(' ')]); },
-      warn: (...a) => { out.push(['e', a.join(' ')]); },
-    },
-    process: {
-      exit: (code) => { throw new ExitSignal(code === undefined ? 0 : code); },
-    },
-    setTimeout: (fn, delay, ...args) => {
-      const id = ++timerSeq;
-      timers.push({ id, fn, args, delay: delay || 0 });
-      if (fn && fn.name === '$runScheduled') passStartPending = true;
-      return id;
-    },
-    clearTimeout: (id) => {
-      const i = timers.findIndex(t => t.id === id);
-      if (i >= 0) timers.splice(i, 1);
-    },
-    TextDecoder, TextEncoder,
-  };
-  const ctx = vm.createContext(sandbox);
-  const h = {
-    random: () => { randPending = true; return 1 / 1024; },
-    floor: (x) => {
-      if (!randPending) return undefined;
-      randPending = false;
-      const k = x * 1024;
-      if (!(Number.isInteger(k) && k >= 1 && k <= 64)) return undefined;
-      if (k === 1) return 0;
-      return choose('rand', k);
-    },
-    now: () => {
-      if (passStartPending) { passStartPending = false; inPass = true; passStart = now; return now; }
-      if (!inPass) return now;
-      if (points.length >= maxPoints) return passStart;
-      const c = choose('slice', 2);
-      if (c === 1) { inPass = false; now += 5; return now; }
-      return passStart;
-    },
-  };
-  BOOT.runInContext(ctx)(h);
+  m.run = run;
+  const sandbox = m.sandbox;
+  const out = run.out, points = run.points, timers = run.timers;
   if (opts.globals) for (const k of Object.keys(opts.globals)) sandbox[k] = opts.globals[k];
-  if (opts.setup) opts.setup(sandbox);
 
   let end = null;
   const guard = (f) => {
@@ -120,21 +137,22 @@ function runOnce(script, choices, opts) {
       if (opts.keepStack && e && e.stack) end += '\n' + e.stack;
     }
   };
-  guard(() => script.runInContext(ctx));
+  guard(() => script.runInContext(m.ctx));
   let pumps = 0;
   const maxTimers = opts.maxTimers || 2000;
   while (end === null && timers.length > 0) {
-    if (++pumps > maxTimers || points.length >= maxPoints) { end = 'horizon'; break; }
-    inPass = false;
-    // candidates: with equal delays timers fire FIFO by default
+    if (++pumps > maxTimers || points.length >= run.maxPoints) { end = 'horizon'; break; }
+    run.inPass = false;
+    // with equal delays timers fire FIFO by default
     let idx = 0;
-    if (timers.length > 1 && !opts.fifoTimers) idx = choose('timer', timers.length);
+    if (timers.length > 1 && !opts.fifoTimers) idx = run.choose('timer', timers.length);
     const t = timers.splice(idx, 1)[0];
-    now += 1;
+    run.now += 1;
     guard(() => t.fn(...t.args));
   }
   if (end === null) end = 'exit0';
-  if (diverged === null && ci < choices.length) diverged = `only ${ci} of ${choices.length} choices consumed`;
+  let diverged = run.diverged;
+  if (diverged === null && run.ci < choices.length) diverged = `only ${run.ci} of ${choices.length} choices consumed`;
   return { out, end, points, diverged, sandbox };
 }
 
@@ -169,7 +187,7 @@ function explore(script, opts, bound, maxExec, visit) {
 
 function normalizeOut(out) { return out.map(x => x[0] + ':' + x[1]); }
 
-module.exports = { loadScript, runOnce, explore, normalizeOut };
+module.exports = { loadScript, runOnce, explore, normalizeOut, Machine };
 
 // CLI server: JSON lines {id, script, choices, globals, maxTimers} -> {id, out, end, points}
 if (require.main === module) {
